@@ -189,6 +189,9 @@ pub struct Variant {
     pub skip: bool,
     pub untagged: bool,
     pub docs: Option<Doc>,
+    /// `#[ts(as = "..")]` on the variant
+    #[serde(default)]
+    pub as_type: Option<TyExpr>,
 }
 
 #[derive(Clone, Debug, PartialEq, Eq, Hash, serde::Serialize, serde::Deserialize)]
@@ -213,6 +216,9 @@ pub struct ContainerAttrs {
     /// Some(nullable)
     pub optional_fields: Option<bool>,
     pub type_override: Option<String>,
+    /// `#[ts(as = "..")]` on the container
+    #[serde(default)]
+    pub as_type: Option<TyExpr>,
 }
 
 impl ContainerAttrs {
@@ -450,6 +456,16 @@ impl Module {
                 }
                 Body::Named(fs) => {
                     out.insert(if fs.is_empty() { "struct_empty_named".into() } else { "struct_named".to_string() });
+                    if fs.iter().filter(|f| f.flatten).count() == 1 && fs.iter().filter(|f| !f.flatten && !f.skip).count() == 0 {
+                        if let Some(i) = fs.iter().find(|f| f.flatten).and_then(|f| crate::flatten_target(&f.ty)) {
+                            if matches!(&self.types[i].body, Body::Named(g) if g.len() >= 2 && g.iter().all(|f| f.flatten)) {
+                                out.insert("flatten_tower".to_string());
+                            }
+                        }
+                    }
+                    if !fs.is_empty() && fs.iter().all(|f| f.flatten) {
+                        out.insert(if fs.len() == 1 { "struct_of_one_flattened_field" } else { "struct_of_flattened_fields_only" }.to_string());
+                    }
                     if td.attrs.tag.is_some() {
                         out.insert("struct_tag".into());
                     }
